@@ -5,8 +5,9 @@ from d42 import substitute, validate
 from d42.substitution.errors import SubstitutionError
 
 MODULE = "D42.Props.C12"
-THEOREMS = []
-FILES = ["D42/Model/Data.lean", "D42/Model/Validate.lean", "D42/Model/Subst.lean", "D42/Props/C12.lean"]
+THEOREMS = ["subst_error_kind", "fromNativeS_error_kind", "subst_any_nonempty", "subst_listE_exact",
+            "subst_idempotent_scalar"]
+FILES = ["D42/Model/Data.lean", "D42/Model/Validate.lean", "D42/Model/Subst.lean", "D42/Props/C14.lean", "D42/Props/C12.lean"]
 
 EVIDENCE = dict(
     level="proof",
